@@ -100,6 +100,8 @@ where
         starts: vec![mk(&nums(&sc["start"]))],
         goal: Rc::new(ListGoal { space: space.clone(), goals, r: sc["goal_r"].as_f64().unwrap(), i: Cell::new(0) }),
         checker: Rc::new(move |s: &SP::StateType| !invalid(&v2, &fl2(s), &w2)),
+        pd_key: None,
+        vc_key: None,
     };
     // wall clock (no virtual time): a generous limit, as on the Python side
     let secs = sc["timeout"].as_f64().unwrap();
